@@ -418,7 +418,56 @@ pub fn run(ctx: &RunCtx) -> i32 {
         }
         r.count("requests_served_by_a_reused_service_instance", session_end());
     });
+    let mut total = total;
+    {
+        let rt = new_runtime();
+        aligned_boundaries(&rt, &mut total, &secrets, ctx.tier.sz(1, 12));
+    }
     finish(ctx, &meta, &total)
+}
+
+/// Boundaries of the window at sub-second resolution.  The parameters of a presigned URL are whole seconds, the server
+/// reads a clock with a sub-second part: requests are issued 0.25-0.6 s into a second, so that "expired since 0.3 s" and
+/// "expires in 0.6 s" are told apart.  A verdict is demanded only where it cannot depend on how long the call took:
+/// "already outside" stays outside; "still inside" is judged only if the clock read AFTER the call is still inside.
+fn aligned_boundaries(rt: &tokio::runtime::Runtime, r: &mut Report, secrets: &HashMap<String, String>, batches: u64) {
+    let mut cfg = auth_cfg(secrets, HostCfg::None);
+    cfg.access = Some(AccessPolicy::DefaultLike);
+    let mk = |t_sign: i64, expires: u64| {
+        let mut req = RawRequest::new("GET", "/aligned-bucket/aligned-key").header("host", "localhost:9000");
+        let p = V4Params { access_key: AK.into(), secret: secrets[AK].clone(), amz_date: unix_to_amz_date(t_sign), region: "us-east-1".into(), service: "s3".into() };
+        v4_presign(&mut req, &p, expires, &["host"]);
+        req
+    };
+    for _ in 0..batches {
+        for e in [1u64, 2, 60, 900, 901, 3600, 604_800] {
+            let (s, t0) = crate::monitor::c05::wait_for_mid_second();
+            // (what, request, must be authenticated?, the instant before which the verdict is certain: None = for ever)
+            let cases: Vec<(&str, RawRequest, bool, Option<i64>)> = vec![
+                ("expired-since-a-fraction-of-a-second", mk(s - e as i64, e), false, None),
+                ("expires-in-a-fraction-of-a-second", mk(s + 1 - e as i64, e), true, Some(s + 1)),
+                ("a-fraction-of-a-second-before-the-skew-window", mk(s + 901, e), false, Some(s + 1)),
+                ("just-inside-the-skew-window", mk(s + 900, e), true, None),
+            ];
+            for (what, req, want_auth, certain_until) in cases {
+                let seen = run_auth(rt, &cfg, &req);
+                let t1 = crate::monitor::c05::now_f64();
+                if certain_until.is_some_and(|u| t1 >= u as f64 - 0.02) {
+                    r.inconclusive("aligned boundary: the call did not finish inside the second it was aimed at");
+                    continue;
+                }
+                let authenticated = matches!(&seen.hook_cred, Some(Some(_))) || !seen.backend.is_empty();
+                if authenticated == want_auth {
+                    r.held(format!("aligned/{what}/{}", if e < 900 { "short" } else if e == 900 || e == 901 { "at-skew" } else { "long" }));
+                } else {
+                    r.violated(
+                        format!("C06/aligned/{}/{what}", if authenticated { "accepted" } else { "refused" }),
+                        json!({"kind": "aligned", "what": what, "expires": e, "request": req.to_json(), "clock_before": t0, "clock_after": t1, "whole_second": s, "seen": {"status": seen.status, "code": seen.code, "events": seen.events}}),
+                    );
+                }
+            }
+        }
+    }
 }
 
 pub fn replay(v: &Value) -> i32 {
